@@ -175,6 +175,10 @@ func (x *Exec) iteVal(c *Term, a, b Val) Val {
 	case RuneSeqVal:
 		bv := b.(RuneSeqVal)
 		return RuneSeqVal{o.Ite(c, av.Arr, bv.Arr), o.Ite(c, av.Len, bv.Len)}
+	case DecVal:
+		bv := b.(DecVal)
+		return DecVal{View: x.iteVal(c, av.View, bv.View).(StrVal), Pos: o.Ite(c, av.Pos, bv.Pos), Depth: o.Ite(c, av.Depth, bv.Depth),
+			InObj: o.Ite(c, av.InObj, bv.InObj), AtKey: o.Ite(c, av.AtKey, bv.AtKey)}
 	case TimeVal:
 		bv := b.(TimeVal)
 		return TimeVal{Zero: o.Ite(c, av.Zero, bv.Zero), Y: o.Ite(c, av.Y, bv.Y), M: o.Ite(c, av.M, bv.M), D: o.Ite(c, av.D, bv.D),
@@ -370,6 +374,9 @@ func sameVal(a, b Val) bool {
 	case RuneSeqVal:
 		bv, ok := b.(RuneSeqVal)
 		return ok && av == bv
+	case DecVal:
+		bv, ok := b.(DecVal)
+		return ok && av.Pos == bv.Pos && av.Depth == bv.Depth && av.InObj == bv.InObj && av.AtKey == bv.AtKey && av.View.Arr == bv.View.Arr && av.View.Off == bv.View.Off && av.View.Len == bv.View.Len
 	case TimeVal:
 		bv, ok := b.(TimeVal)
 		return ok && av == bv
